@@ -98,6 +98,17 @@ func (ctx *EvalCtx) specialForm(name string, x *ast.CallExpr) (CV, bool) {
 			ctx.fail("deref of non-pointer")
 		}
 		return CV{ex.load(ctx.state(), v.t, pt.Elem()), pt.Elem()}, true
+	case "unbox":
+		// the struct value an interface value was made from (x := T{...}; f(x) with f taking an interface)
+		v := ctx.eval(x.Args[0])
+		if v.t.op != "app" || !strings.HasPrefix(v.t.name, "box.") || len(v.t.args) != 1 {
+			ctx.fail("unbox: not a value boxed into an interface on every path")
+		}
+		t, ok := ex.tm.dtType[strings.TrimPrefix(v.t.name, "box.")]
+		if !ok {
+			ctx.fail("unbox: boxed type %s is not a struct", v.t.name)
+		}
+		return CV{v.t.args[0], t}, true
 	}
 	return CV{}, false
 }
